@@ -18,7 +18,7 @@ import (
 // its own honest transcript, so every deviation that changes handshake bytes
 // also makes the Finished values disagree: the endpoint must never complete.
 
-var scriptFaults = []string{"replace-type", "duplicate", "omit", "truncate-body", "truncate-body+close", "set-byte", "handshake-length", "insert-record", "close-before", "close-inside", "stall", "fragment(legal)", "coalesce(legal)", "replace-body", "record-version", "oversize-record", "warning-alerts", "empty-record", "length-field", "plaintext-finished",
+var scriptFaults = []string{"replace-type", "duplicate", "omit", "truncate-body", "truncate-body+close", "set-byte", "handshake-length", "insert-record", "close-before", "close-inside", "stall", "fragment(legal)", "coalesce(legal)", "replace-body", "record-version", "oversize-record", "warning-alerts", "empty-record", "length-field", "finished-early", "plaintext-finished",
 	"hello-version", "hello-suites", "hello-compression", "server-bad-selection", "server-cert-list", "deadline", "crafted-key-exchange", "malformed-extensions", "cert-message-omitted", "ecdhe-server-params"}
 var scriptReach = []string{"honest-client-vs-gm-server", "honest-client-vs-auto-server", "honest-server-vs-gm-client", "must-complete-completed", "must-fail-failed", "unspecified-ok", "eut-client", "eut-server-gm", "eut-server-auto", "eut-server-tls", "alert-from-eut", "timeout-at-deadline", "legit-wait", "client-auth-path", "dev-in-client-flight", "dev-in-server-flight", "dev-after-ccs", "scripted-tls12-peer", "honest-tls12-client-vs-auto-server", "honest-tls12-client-vs-tls-server", "honest-tls12-server-vs-tls-client", "npn-negotiated", "unnegotiated-optional-message-refused", "honest-ecdhe-completed"}
 
@@ -91,7 +91,7 @@ func drawDev(c *simkit.Choice, units int) (*reftls.Dev, int, string) {
 	d := &reftls.Dev{At: c.Choose(units, simkit.LFault)}
 	exp := expFail
 	why := ""
-	k := c.Weighted([]int{3, 3, 3, 3, 3, 4, 2, 4, 3, 3, 1, 3, 2, 2, 2, 1, 2, 1, 6, 2}, simkit.LFault)
+	k := c.Weighted([]int{3, 3, 3, 3, 3, 4, 2, 4, 3, 3, 1, 3, 2, 2, 2, 1, 2, 1, 6, 0, 2}, simkit.LFault)
 	d.Kind = k + 1
 	switch d.Kind {
 	case reftls.DevReplaceType:
@@ -233,7 +233,10 @@ func runScriptedPeer(c *simkit.Choice, r *simkit.Rec) {
 	if sr.NPN {
 		ccsAt = units - 3
 	}
-	class := c.Weighted([]int{2, 10, 3, 2, 2}, simkit.LScen) // honest, wire deviations, hello/selection content, deadline, unnegotiated optional message
+	class := c.Weighted([]int{2, 10, 3, 2, 2, 1}, simkit.LScen) // honest, wire deviations, hello/selection content, deadline, unnegotiated optional message, Finished across the key change
+	if class == 5 && !sr.EUTServer {
+		class = 1
+	}
 	crafted := false
 	malformedExt := false
 	if mismatch && class != 2 {
@@ -674,6 +677,12 @@ func runScriptedPeer(c *simkit.Choice, r *simkit.Rec) {
 				sr.Expect = expAny
 			}
 		}
+	case 5:
+		// the head of the client's Finished travels in the clear, in the record of the
+		// last message before ChangeCipherSpec (handshake messages must not span a key change)
+		sr.Devs = []*reftls.Dev{{At: ccsAt - 1, Kind: reftls.DevFinishedEarly, N: c.Choose(16, simkit.LFault)}}
+		sr.Expect = expFail
+		sr.Why = "head of Finished sent in the clear before ChangeCipherSpec, in the record of the preceding message"
 	case 4:
 		// A well-formed optional message that was not negotiated (or not asked for),
 		// which the peer also hashes: only the endpoint's state machine can refuse it.
